@@ -1353,23 +1353,42 @@ class Interp:
             if vals and all(isinstance(v, int) for v in vals):
                 return min(vals)
         if norm(fn) in ('itertools.islice', 'islice') and len(args) in (2, 3, 4) and 'islice' not in env:
-            items = self.seq(args[0])
             sl = slice(*[a for a in args[1:]]) if len(args) > 2 else slice(args[1])
+            if isinstance(args[0], PyIter) or self.obj_iter_possible(args[0]):
+                # over an iterator: only the items the cut needs are taken from it, when they are asked for; the rest stays in it
+                if any(x_ is not None and (not isinstance(x_, int) or isinstance(x_, bool) or x_ < 0) for x_ in (sl.start, sl.stop, sl.step)) or sl.step == 0:
+                    raise Raised('ValueError', h.version, e.lineno)
+                def islice_(src_, lo_=sl.start or 0, hi_=sl.stop, st_=sl.step or 1):
+                    k_, nxt_ = 0, lo_
+                    if hi_ is not None and nxt_ >= hi_:
+                        return
+                    for x_ in self.walk(src_):
+                        if k_ == nxt_:
+                            yield x_
+                            nxt_ += st_
+                            if hi_ is not None and nxt_ >= hi_:
+                                # (CPython reads on to position hi_ - 1 when the step jumps past it; with step 1 nothing more is read)
+                                return
+                        k_ += 1
+                return self.lazy_iter(islice_(args[0]))
+            items = self.seq(args[0])
             return items[sl]
         if norm(fn) in ('itertools.dropwhile', 'dropwhile', 'itertools.takewhile', 'takewhile') and len(args) == 2 and not kwargs and norm(fn).split('.')[0] not in env:
             if isinstance(args[1], PyIter):
                 # over a shared iterator: items are taken one by one; the first item the predicate refuses is consumed as well (takewhile
                 # drops it, dropwhile hands it out) and the rest stays in the iterator for whoever reads it next
-                it_ = args[1]
-                taken_ = []
-                while it_.has_next():
-                    x_ = it_.take()
-                    if not self.truth(self.apply(args[0], [x_])):
-                        if norm(fn).endswith('dropwhile'):
-                            return [x_] + it_.drain()
-                        return taken_
-                    taken_.append(x_)
-                return taken_ if norm(fn).endswith('takewhile') else []
+                def while_(pred_, it_, drop_):
+                    while it_.has_next():
+                        x_ = it_.take()
+                        if not self.truth(self.apply(pred_, [x_])):
+                            if drop_:
+                                yield x_
+                                while it_.has_next():
+                                    yield it_.take()
+                            return
+                        if not drop_:
+                            yield x_
+                return self.lazy_iter(while_(args[0], args[1], norm(fn).endswith('dropwhile')))          # (lazy: when its items are asked for)
             items_ = self.seq(args[1])
             k_ = 0
             while k_ < len(items_) and self.truth(self.apply(args[0], [items_[k_]])):
@@ -2237,6 +2256,36 @@ class Interp:
                         h.new_dict(nm_)
                         h.objs[nm_]['entries'].extend(val.items())
                     return Ref(nm_)
+                if isinstance(node, ast.Name) and node.id != cand:
+                    # NAME = OTHER in the class body: the other class-level value, or a value of the module
+                    other_ = self.class_value(c, node.id, c)
+                    if other_ is not None:
+                        return other_
+                    try:
+                        return self.ev(node, {}, None)
+                    except AnalysisError:
+                        return None
+                if isinstance(node, (ast.Tuple, ast.List)) and all(
+                        isinstance(x_, (ast.Lambda, ast.Constant, ast.Name)) or (isinstance(x_, ast.Tuple) and all(isinstance(y_, (ast.Lambda, ast.Constant, ast.Name)) for y_ in x_.elts))
+                        for x_ in node.elts):
+                    # a table of functions written in the class body (lambdas), constants and names, possibly as rows
+                    def cell_(x_):
+                        if isinstance(x_, ast.Lambda):
+                            return Closure(x_, {}, None, c)
+                        if isinstance(x_, ast.Constant):
+                            return x_.value
+                        if isinstance(x_, ast.Tuple):
+                            return tuple(cell_(y_) for y_ in x_.elts)
+                        v_ = self.class_value(c, x_.id, c)
+                        if v_ is None:
+                            fn_ = h.module.method(c, x_.id)
+                            v_ = Closure(fn_.node, {}, None, fn_.cls) if fn_ is not None else self.ev(x_, {}, None)
+                        return v_
+                    try:
+                        vals_ = [cell_(x_) for x_ in node.elts]
+                    except AnalysisError:
+                        return None
+                    return tuple(vals_) if isinstance(node, ast.Tuple) else h.new_list(vals_)
         return None
 
     def apply(self, f, args, kwargs=None):
@@ -2633,6 +2682,16 @@ class Interp:
             # __exit__ is modelled for objects of the module only (called on normal and exceptional exit, its result ignored)
             entered = []
             for item in st.items:
+                ce_ = item.context_expr
+                if isinstance(ce_, ast.Call) and norm(ce_.func) in ('contextlib.suppress', 'suppress') and norm(ce_.func).split('.')[0] not in env \
+                        and not ce_.keywords and item.optional_vars is None:
+                    # contextlib.suppress(E1, E2): an exception of one of these classes that leaves the block ends the block quietly
+                    entered.append(('suppress', ast.Tuple(elts=list(ce_.args), ctx=ast.Load())))
+                    continue
+                if isinstance(ce_, ast.Call) and norm(ce_.func) in ('contextlib.nullcontext', 'nullcontext') and norm(ce_.func).split('.')[0] not in env and len(ce_.args) <= 1:
+                    if item.optional_vars is not None and isinstance(item.optional_vars, ast.Name):
+                        env[item.optional_vars.id] = self.ev(ce_.args[0], env, cls) if ce_.args else None
+                    continue
                 v_ = self.ev(item.context_expr, env, cls)
                 if isinstance(v_, Ref) and h.objs[v_.name]['__class__'] in h.module.classes:
                     en_ = h.module.method(h.objs[v_.name]['__class__'], '__enter__')
@@ -2652,6 +2711,10 @@ class Interp:
                 # outer ones then see a normal exit)
                 pending = x_
                 for v_, ex_ in reversed(entered):
+                    if v_ == 'suppress':
+                        if pending is not None and ex_.elts and _handler_matches(ex_, pending.exc):
+                            pending = None
+                        continue
                     res_ = self.call(Closure(ex_.node, {}, v_, ex_.cls), [('class', pending.exc), None, None] if pending is not None else [None, None, None])
                     if pending is not None and self.truth(res_):
                         pending = None
@@ -2659,7 +2722,8 @@ class Interp:
                     raise
                 return None
             for v_, ex_ in reversed(entered):
-                self.call(Closure(ex_.node, {}, v_, ex_.cls), [None, None, None])
+                if v_ != 'suppress':
+                    self.call(Closure(ex_.node, {}, v_, ex_.cls), [None, None, None])
             return r_
         if isinstance(st, ast.Assert):
             if not self.truth(self.ev(st.test, env, cls)):
